@@ -80,7 +80,7 @@ def cfg_C06(tier, rng):
     big = gc.family_hist(rng, 40 if tier == QUICK else 500) + gc.family_hist_orth(rng, 8 if tier == QUICK else 60)
     return [dict(name='history', charts=f1(tier, rng, need=has_history, sample_t=2500) + big + shipped(need=has_history),
                  consts=dict(MaxQ=1, MaxLevel=9 if tier == QUICK else 11),
-                 variants=[dict(variant='api')],
+                 variants=[dict(variant='api', shadow=True)],
                  random=dict(count=150 if tier == QUICK else 1500, length=16,
                              family=lambda r, k: [c for c in gc.family_f3(r, 4 * k, nmin=5, nmax=9)
                                                   if has_history(c)][:k]))]
@@ -116,7 +116,7 @@ def cfg_C05(tier, rng):
                  consts=dict(MaxQ=2 if tier == QUICK else 3, MaxClk=2 if tier == QUICK else 3,
                              Delays={0, 1, 2}, Advances={1, 2}, Params={0},
                              MaxLevel=6 if tier == QUICK else 8),
-                 variants=[dict(variant='api')],
+                 variants=[dict(variant='api', shadow=True)],
                  random=dict(count=300 if tier == QUICK else 3000, length=30, delays=(0, 0, 1, 2, 3),
                              advances=(1, 2), params=(0, 7), maxq=5,
                              family=lambda r, kk: gc.family_f3(r, kk, nmin=4, nmax=8)))]
@@ -134,7 +134,7 @@ def cfg_C13(tier, rng):
     return [dict(name='time', charts=charts,
                  consts=dict(MaxQ=1, MaxClk=4 if tier == QUICK else 5, Delays={0, 1}, Advances={1, 2},
                              MaxLevel=8 if tier == QUICK else 10),
-                 variants=[dict(variant='api')],
+                 variants=[dict(variant='api', shadow=True)],
                  random=dict(count=200 if tier == QUICK else 2000, length=25, delays=(0, 1, 2),
                              advances=(1, 2, 3), maxq=3,
                              family=lambda r, kk: gc.family_f3(r, kk, nmin=4, nmax=8, time_guards=True)))]
@@ -188,7 +188,7 @@ def cfg_C08(tier, rng):
     ship = shipped(need=lambda c: sum(c['spre']) + sum(c['spost']) + sum(c['sinv']) > 0, max_oracle=3)
     return [dict(name='contracts', charts=charts + rich + ship,
                  consts=dict(MaxQ=1, MaxCFail=12 if tier == QUICK else 16, MaxLevel=5 if tier == QUICK else 7),
-                 variants=[dict(variant='api')],
+                 variants=[dict(variant='api', shadow=True)],
                  random=dict(count=150 if tier == QUICK else 1500, length=14, pfail=0.3,
                              family=lambda r, kk: gc.family_f3(r, kk, nmin=5, nmax=8, contracts=True)))]
 
